@@ -289,8 +289,18 @@ class Acc:
 
 
 # ---------------------------------------------------------------- workers
+MEM_LIMIT = int(os.environ.get("VERIF_MEM_LIMIT_GB", "6")) * 2 ** 30
+
+
 def _worker_init():
     setup_env()
+    # a change that makes the library build an unbounded list must end in MemoryError inside that one
+    # execution (reported as a violation), not in the kernel killing the worker
+    import resource
+    try:
+        resource.setrlimit(resource.RLIMIT_AS, (MEM_LIMIT, MEM_LIMIT))
+    except (ValueError, OSError):
+        pass
 
 
 def _run_one(arg):
@@ -352,6 +362,16 @@ def run_levels(modname, mod, tier, seed, pool, results):
         frontier = nxt
         level += 1
     return len(seen), level
+
+
+class _Pool:
+    """imap over a ProcessPoolExecutor (which, unlike multiprocessing.Pool, notices a dead worker)."""
+
+    def __init__(self, ex):
+        self.ex = ex
+
+    def imap(self, fn, args, chunksize=1):
+        return self.ex.map(fn, args, chunksize=chunksize)
 
 
 def load_known():
@@ -429,11 +449,17 @@ def run_check(pid, tier, seed, workers=None):
         if hasattr(mod, "hist_init"):
             hist_states, hist_levels = run_levels(modname, mod, tier, seed, None, results)
     else:
+        import concurrent.futures as cf
         ctx = mp.get_context("fork")
-        with ctx.Pool(workers, initializer=_worker_init) as pool:
-            results = list(pool.imap_unordered(_run_one, args, chunksize=1))
-            if hasattr(mod, "hist_init"):
-                hist_states, hist_levels = run_levels(modname, mod, tier, seed, pool, results)
+        try:
+            with cf.ProcessPoolExecutor(workers, mp_context=ctx, initializer=_worker_init) as ex:
+                results = list(ex.map(_run_one, args, chunksize=1))
+                if hasattr(mod, "hist_init"):
+                    hist_states, hist_levels = run_levels(modname, mod, tier, seed, _Pool(ex), results)
+        except cf.process.BrokenProcessPool as e:
+            # a worker process died (killed, segfault): the run is not a verdict
+            print("WORKER-DIED property=%s: a worker process terminated abruptly (%s); no verdict" % (pid, e))
+            return 2
     results.sort(key=lambda r: r["idx"])
 
     tot = collections.Counter()
